@@ -29,7 +29,7 @@ A D line may carry a 4th token: the variant seed from which the harness derives,
 overload and argument type (see API_SURFACE) and where the half-fed object is copied / assigned / moved.
 The model prints the same line followed by " | spec <standard's value(s) from the extracted Coq spec>".
 """
-import hashlib, json, os, subprocess, sys
+import hashlib, json, os, subprocess, sys, time
 HERE = os.path.dirname(os.path.abspath(__file__))
 sys.path.insert(0, os.path.join(HERE, "..", "lib")); sys.path.insert(0, os.path.join(HERE, "..", "translate"))
 import verif, digest_tables
@@ -128,6 +128,21 @@ def _hchunks(n):
     return "%d,%d,%d,%d" % (c1, c2, c3, n - c1 - c2 - c3)
 
 
+def big_single_calls(algo, subset):
+    """ONE process(const void*, uint32) call of n bytes, n around 2^31 and up to the type's maximum 2^32 - 1, on an empty buffer
+    and after a short first chunk (1 or 63 bytes: the buffered path then sees the big size, C14_7).
+    subset (quick): three calls -- 2^31 after one short chunk, 2^31-1 or 2^31+5 after the other short chunk, and on an empty
+    buffer 2^32-1 (fast classes) or the remaining one of 2^31-1 / 2^31+5; otherwise all twelve combinations."""
+    ns = ((1 << 31) - 1, 1 << 31, (1 << 31) + 5, (1 << 32) - 1)
+    if subset:
+        p1, p2 = ((1, 63), (63, 1))[ck.seed % 2]
+        na, nb = ((ns[0], ns[2]), (ns[2], ns[0]))[(ck.seed // 2) % 2]
+        combos = [(ns[1], p1), (na, p2), (ns[3] if algo in ("md5", "sha1") else nb, 0)]
+    else:
+        combos = [(n_, pre) for n_ in ns for pre in (0, 1, 63)]
+    return ["H %s %s %d %s" % (algo, "zn"[(k_ + pre) % 2], n_ + pre, ("%d,%d" % (pre, n_)) if pre else str(n_)) for k_, (n_, pre) in enumerate(combos)]
+
+
 hcases = []
 if not ck.replay:
     # corpus lines of the huge stage (G / H / V) run first
@@ -137,10 +152,12 @@ if not ck.replay:
                   "G n %d %s" % (G32 - 3, _hkey), "G n %d %s" % (G32 + 13, _hkey)]
         hcases += ["H %s %s %d %s" % (a_, "n" if i_ % 2 == 0 else "z", G32 + 13 + i_, _hchunks(G32 + 13 + i_)) for i_, a_ in enumerate(ALGOS)]
         hcases += ["V %s n %d %d" % (a_, G32 + 13 + i_, i_ % 3) for i_, a_ in enumerate(ALGOS)]
+        for a_ in ALGOS: hcases += big_single_calls(a_, False)
     else:
         a_ = ALGOS[(ck.seed + 1) % 4]
         hcases = ["G n %d %s" % (G32 + 13, _hkey), "H %s n %d %s" % (a_, G32 + 13, _hchunks(G32 + 13)),
                   "V %s n %d %d" % (ALGOS[(ck.seed + 2) % 4], G32 + 13, ck.seed % 3)]
+        hcases += big_single_calls(ALGOS[(ck.seed + 3) % 4], True)
     hcases = hcorpus + [c for c in hcases if c not in hcorpus]
 elif replay_case[:2] in ("G ", "H ", "V "):
     hcases = [replay_case]
@@ -182,7 +199,9 @@ def _hashlib_huge():
 
 _hth = threading.Thread(target=_hashlib_huge); _hth.start()      # hashlib releases the GIL on large updates
 
+stage_times = {"builds_done": round(time.time() - ck.t0, 1)}
 pr = ck.prove() if translator_error is None else None
+stage_times["prove_done"] = round(time.time() - ck.t0, 1)
 
 
 # ------------------------------------------------------------------------------ independent references
@@ -480,6 +499,7 @@ else:
     rc1, out1 = verif.sh([exe, casefile], timeout=3000)
     impl = [l for l in out1.splitlines() if l[:2] in ("D ", "S ", "C ", "P ", "L ") or l == "?"]   # (sanitizer text is merged into stdout)
     nmain = len(cases)
+    stage_times["main_harness_done"] = round(time.time() - ck.t0, 1)
     if zproc is not None:
         try:
             zo, _ = zproc.communicate(timeout=1200)
@@ -562,6 +582,7 @@ else:
     if drv is None and not found:
         ck.violation("extracted model/driver does not build", {"correspondence": "ocaml/C14_driver.ml", "log": dlog[-2500:]}, no_input=True)
 
+stage_times["model_and_compare_done"] = round(time.time() - ck.t0, 1)
 # ------------------------------------------------------------------------------ huge-message stage (G / H)
 huge_info = {"cases": list(hcases), "reference": "harness/C14/siphash_ref.hpp (C++, from the paper) for SipHash; Python hashlib for the digests",
              "reference_validated_against_model_on": ref_validated}
@@ -573,10 +594,24 @@ if hcases:
             ho, _ = hproc.communicate(timeout=2400)
         except subprocess.TimeoutExpired:
             hproc.kill(); ho = ""
+        stage_times["huge_process_done"] = round(time.time() - ck.t0, 1)
         _hth.join()
+        stage_times["huge_hashlib_done"] = round(time.time() - ck.t0, 1)
         hl = [l for l in ho.splitlines() if l[:2] in ("G ", "H ", "V ")]
         if hproc.returncode != 0 or len(hl) != len(hcases):
-            ck.violation("huge-message harness failed (rc=%s): %s" % (hproc.returncode, ho[-300:]), {"correspondence": "harness/C14/huge_harness.cpp", "log_tail": ho[-2000:]}, no_input=True)
+            # the stage runs all cases in one process: find the case that kills it
+            bad = None
+            for c in hcases:
+                one = os.path.join(ck.scratch, "hone.txt"); open(one, "w").write(c + "\n")
+                r1, o1 = verif.sh([hexe, one], timeout=900)
+                if r1 != 0 or not any(l[:2] in ("G ", "H ", "V ") for l in o1.splitlines()):
+                    bad = (c, r1, o1); break
+            if bad:
+                found = True
+                ck.violation("real digest/SipHash code crashes (rc=%s, no sanitizer in this stage) on a huge-message case: %s" % (bad[1], bad[0]),
+                             {"case": bad[0], "rc": bad[1], "log_tail": bad[2][-1500:], "replay_cmd": "bin/check C14 --replay <this file>"})
+            else:
+                ck.violation("huge-message harness failed (rc=%s): %s" % (hproc.returncode, ho[-300:]), {"correspondence": "harness/C14/huge_harness.cpp", "log_tail": ho[-2000:]}, no_input=True)
         else:
             for c, l in zip(hcases, hl):
                 stats[c[0]] = stats.get(c[0], 0) + 1
@@ -692,6 +727,7 @@ ck.finish({
     "input_distribution": dict(stats, **hist),
     "api_surface": API_SURFACE,
     "huge_cases": huge_info,
+    "stage_times_s": stage_times,
     "thread_stage": thread_info,
     "special_digest_bytes": special,
     "tables_translated": sorted(getattr(ck, "c14_tables", {}).keys()),
